@@ -135,6 +135,39 @@ func genListText(t *kernel.Tape) string {
 	return b.String()
 }
 
+// sameLength are names of the universe that have the same length.
+var sameLength = []string{"a.test", "z.test", "single"}
+
+// swapOne returns text with one listed name of sameLength replaced by an
+// unlisted one, or with one of them appended in place of a comment line of the
+// same length when none is listed.
+func swapOne(t *kernel.Tape, text string) (swapped string) {
+	lines := strings.Split(text, "\n")
+	listed := map[string]int{}
+	for i, ln := range lines {
+		listed[strings.TrimSuffix(ln, "\r")] = i + 1
+	}
+	var in, out []string
+	for _, n := range sameLength {
+		if listed[n] > 0 {
+			in = append(in, n)
+		} else {
+			out = append(out, n)
+		}
+	}
+	if len(in) == 0 || len(out) == 0 {
+		return text
+	}
+	from, to := kernel.Pick(t, in, "swap-from"), kernel.Pick(t, out, "swap-to")
+	for i, ln := range lines {
+		if strings.TrimSuffix(ln, "\r") == from {
+			lines[i] = to + strings.TrimPrefix(ln, from)
+		}
+	}
+
+	return strings.Join(lines, "\n")
+}
+
 type c11Up struct {
 	names []string
 }
@@ -222,6 +255,11 @@ func runC11(s *kernel.Sim, cfg string) {
 		models[id] = listModel{}
 	}
 
+	prevText := map[filter.ID]string{}
+	// A host that is asked again and again, so that its cached verdict meets
+	// the list changes.
+	focus := kernel.Pick(t, sameLength, "focus-host")
+
 	ctx := context.Background()
 	rounds := t.Range(1, 4, "rounds")
 	for r := 1; r <= rounds && s.Failed() == nil; r++ {
@@ -233,6 +271,18 @@ func runC11(s *kernel.Sim, cfg string) {
 		}
 		for _, id := range hashIDs {
 			text := genListText(t)
+			switch prev := prevText[id]; {
+			case prev == "":
+			case t.Chance(1, 4, "list-swap-one"):
+				// The previous list with one name exchanged for another of
+				// the same length: as many entries, as many octets.
+				text = swapOne(t, prev)
+				s.Probe("list-same-size-other-content")
+			case t.Chance(1, 8, "list-emptied"):
+				// Comments and blank lines only.
+				text = "# nothing listed any more\n\n# " + strings.Repeat("x", t.Choose(40, "pad")) + "\n"
+				s.Probe("list-without-hosts")
+			}
 			l.origin.Set(hashPath(id), text)
 			failNext[hashPath(id)] = r > 1 && t.Chance(1, 4, "refresh-fails")
 			var rerr error
@@ -248,6 +298,7 @@ func runC11(s *kernel.Sim, cfg string) {
 					return
 				}
 				models[id] = parseList(text)
+				prevText[id] = text
 			} else {
 				s.Probe("failed-reset-keeps-list")
 			}
@@ -264,6 +315,9 @@ func runC11(s *kernel.Sim, cfg string) {
 			}
 
 			host := kernel.Pick(t, nameUniverse, "host")
+			if t.Chance(1, 3, "ask-focus-host") {
+				host = focus
+			}
 			switch t.Choose(4, "host-variant") {
 			case 1:
 				host = "sub." + host
